@@ -93,7 +93,8 @@ func (p *Program) Render() string {
 	for _, v := range p.Vars {
 		switch v.Kind {
 		case "str":
-			fmt.Fprintf(&b, "%s := %q\n", v.Name, v.Args[0])
+			// the value is exactly the text between the quotes: no escaping (values contain no double quote)
+			fmt.Fprintf(&b, "%s := \"%s\"\n", v.Name, v.Args[0])
 		default:
 			q := make([]string, len(v.Args))
 			for i, a := range v.Args {
